@@ -126,3 +126,116 @@ def run_frame(ctx, rules=("frame.affine",), want_cipher=False):
     rule = "cipher.step" if want_cipher else "frame.affine"
     ctx.rule(rule, n, floor=FRAME_FLOOR, note="world reader entry points (opcode-enum readers and expect_* helpers, 3 flavours, plain and encrypted)")
     return n
+
+
+# ----------------------------------------------------------------------------------------------
+# writer side: piecewise-affine abstract interpretation (vlib/framew.py)
+# ----------------------------------------------------------------------------------------------
+WRITER_RE = re.compile(r"^(tokio_|astd_)?write_(encrypted|unencrypted)_(client|server)$")
+WRITER_FLOOR = 36
+
+
+def bmax_for(exp, direction):
+    if direction == "client":
+        return 0xFFFF - 4
+    if exp == "wrath":
+        return 0x7FFFFF - 2
+    return 0xFFFF - 2
+
+
+def header_sf(hb, size_len, op_len):
+    """size-field source and placement check from the header byte assignments of an unencrypted header writer.
+    -> (aff or None, placement error or None)"""
+    if hb == "srp" or hb is None:
+        return None, None
+    n = size_len + op_len
+    src = None
+    for i in range(size_len):
+        v = hb.get(i)
+        mask = None
+        if v is not None and v[0] == "bitop" and v[1] == "BitOr":
+            mask = v[3][2] if v[3][0] == "aff" else None
+            v = v[2]
+        if v is None or v[0] != "byte" or v[1][0] != "bytes" or v[1][3] != "be":
+            return None, f"header[{i}] is not a big-endian size byte"
+        b = v[1]
+        width = {"u16": 2, "u32": 4}.get(b[2])
+        want_j = (width - size_len) + i
+        if v[2] != want_j:
+            return None, f"header[{i}] holds byte {v[2]} of the {b[2]} size, expected byte {want_j} (big-endian order)"
+        if i == 0 and size_len == 3 and mask != 0x80:
+            return None, "first byte of the 3-byte size form is not OR-ed with 0x80"
+        if (i != 0 or size_len == 2) and mask is not None:
+            return None, f"header[{i}] is OR-ed with {mask:#x}"
+        if src is None:
+            src = b[1]
+        elif src != b[1]:
+            return None, "size bytes come from different values"
+    for j in range(op_len):
+        v = hb.get(size_len + j)
+        if v is None or v[0] != "byte" or v[1][0] != "bytes" or v[1][3] != "le" or v[2] != j:
+            return None, f"header[{size_len + j}] is not little-endian opcode byte {j}"
+        w = {"u16": 2, "u32": 4}.get(v[1][2])
+        if w != op_len:
+            return None, f"opcode is written with {w} bytes, the {op_len}-byte form is required"
+    if len(hb) != n:
+        return None, f"{len(hb)} header bytes assigned, header has {n}"
+    return src, None
+
+
+def run_frame_writers(ctx):
+    from ..framew import analyse_writer
+    st = state()
+    g = st["g"]
+    F = g.f("wow_world_messages")
+    n = 0
+    for fn in F.all("fn", lambda p: p.startswith("crate::traits::")):
+        m = WRITER_RE.match(fn["name"])
+        mo = re.match(r"^crate::traits::(vanilla|tbc|wrath)::(Server|Client)Message::", fn["path"])
+        if not m or not mo:
+            continue
+        exp, direction = mo.group(1), m.group(3)
+        op_len = 4 if direction == "client" else 2
+        bmax = bmax_for(exp, direction)
+        key0 = gpath("wow_world_messages", fn["path"])
+        n += 1
+        res = analyse_writer(g, "wow_world_messages", fn, exp, direction, bmax)
+        for lo, hi, s, err in res:
+            rng = f"body length {lo:#x}..{hi:#x}" if lo != hi else f"body length {lo:#x}"
+            pk = f"{key0}|B={lo:#x}"
+            if err:
+                ctx.violate("frame.affine", f"{key0}|shape", f"{fn['path']}: {err}", fn["file"], fn["line"])
+                break
+            for kind, msg in s.events:
+                ctx.violate("frame.affine", f"{pk}|{kind}", f"{fn['path']}, {rng}: {msg}", fn["file"], fn["line"])
+            if any(k in ("overflow", "assert", "panic") for k, _ in s.events):
+                continue
+            if s.header_len is None:
+                ctx.violate("frame.affine", f"{pk}|no-header", f"{fn['path']}, {rng}: no header is written", fn["file"], fn["line"])
+                continue
+            # which form?
+            sf = s.sf
+            size_len = s.header_len - op_len
+            if sf is None:
+                sf, perr = header_sf(s.header_bytes, size_len, op_len)
+                if perr:
+                    ctx.violate("frame.affine", f"{pk}|placement", f"{fn['path']}, {rng}: {perr}", fn["file"], fn["line"])
+                    continue
+            if size_len not in (2, 3) or (size_len == 3 and not (exp == "wrath" and direction == "server")):
+                ctx.violate("frame.affine", f"{pk}|header-len", f"{fn['path']}, {rng}: header of {s.header_len} bytes", fn["file"], fn["line"])
+                continue
+            if (sf[1], sf[2]) != (1, op_len):
+                ctx.violate("frame.affine", f"{pk}|size-field", f"{fn['path']}, {rng}: size field = {sf[1]}*B+{sf[2]}, must be B+{op_len} (opcode bytes + body)", fn["file"], fn["line"])
+            # 3-byte form exactly when the size field needs it (> 0x7FFF), same predicate as wow_srp and the readers
+            sflo, sfhi = sf[1] * lo + sf[2], sf[1] * hi + sf[2]
+            if exp == "wrath" and direction == "server":
+                if size_len == 3 and sflo <= 0x7FFF:
+                    ctx.violate("frame.affine", f"{pk}|form", f"{fn['path']}, {rng}: 3-byte size form used although the size field ({sflo:#x}) fits 15 bits", fn["file"], fn["line"])
+                if size_len == 2 and sfhi > 0x7FFF:
+                    ctx.violate("frame.affine", f"{pk}|form", f"{fn['path']}, {rng}: 2-byte size form used although the size field ({sfhi:#x}) needs the 3-byte form (bit 15 is the large-header marker)", fn["file"], fn["line"])
+            if s.assert_ok is None:
+                ctx.violate("frame.affine", f"{pk}|no-assert", f"{fn['path']}, {rng}: declared size is never compared with the bytes written", fn["file"], fn["line"])
+        if n <= 2:
+            ctx.sample({"writer": fn["path"], "pieces": [(hex(lo), hex(hi), [e[0] for e in (s.events if s else [])]) for lo, hi, s, err in res][:8]})
+    ctx.rule("frame.writers", n, floor=WRITER_FLOOR, note="default write_* methods evaluated over all body lengths the header can express (piecewise-affine domain)")
+    return n
